@@ -139,7 +139,7 @@ def sym_copeland(args):
                 s_ = s_ + z3.If(bf < af, z3.RealVal(1), z3.If(bf == af, HALF, z3.RealVal(0)))
                 v = [v[0] + z3.If(bf < af, 1, 0), v[1] + z3.If(bf == af, 1, 0), v[2] + z3.If(bf > af, 1, 0)]
         S[x], C[x] = s_, v
-    ex = fork.Explorer(fork.valid_scheme(B, T) + ds.constraints(), max_paths=int(1e5), timeout_ms=120000)
+    ex = fork.Explorer(fork.valid_scheme(B, T) + ds.constraints(), max_paths=int(1e5), timeout_ms=300000)
 
     def pay(mdl, what, cls):
         return {"signature": {"site": "CopelandMethod(symbolic dataset)", "class": cls}, "what": what, "check": cls, "config": "Copeland", "flag": True,
@@ -189,7 +189,7 @@ def run(run):
     run.pmap("kernel", kernel, kn)
     items = sweep.make_items(run, ["Copeland"], [chk_copeland, "wellformed"], flags=(True, False), light=light, heavy=light)
     run.pmap("sweep.run_item", sweep.run_item, items, chunksize=4)
-    symb = [(2, 2), (3, 1), (3, 2), (2, 3)] + ([(3, 3), (4, 1)] if run.thorough else [])
+    symb = [(2, 2), (3, 1), (3, 2), (2, 3)] + ([(4, 1), (2, 4)] if run.thorough else [])
     run.bounds["Copeland on symbolic datasets [S over datasets and schemes] (n, m)"] = symb
     run.pmap("sym_copeland", sym_copeland, symb)
     run.extra["work_items"] = len(items)
